@@ -116,7 +116,8 @@ pub trait Runner {
 }
 
 macro_rules! runner {
-  ($name:ident, $env:ident, $build:ident, $form:ident, $subject:ty, $boxsub:ty, $progrc:ident, $groupprobe:ident) => {
+  ($name:ident, $env:ident, $build:ident, $form:ident, $subject:ty, $boxsub:ty, $progrc:ident, $groupprobe:ident,
+   $bx:ty, $react:ty, $multi:ty) => {
     /// typed outer probe of a group_by pipeline: records the announcement and
     /// attaches a fresh probe to the group from inside the callback
     pub struct $groupprobe {
@@ -133,7 +134,7 @@ macro_rules! runner {
           self.base + *c
         };
         self.sh.record(self.id, 'N', Val::G(sid, Box::new(g.key.clone())));
-        let p = Probe::new(&self.sh, None);
+        let p: Probe<$react> = Probe::new(&self.sh, None);
         let _ = g.actual_subscribe(p);
       }
       fn error(self, e: Val) {
@@ -152,6 +153,11 @@ macro_rules! runner {
       pub handles: Vec<Option<$boxsub>>,
       pub gcount: Arc<Mutex<i64>>,
       pub dead: bool,
+      /// pipelines are built once per root and subscribed through clones
+      pub built: std::collections::HashMap<usize, $bx>,
+      /// published observables: (the connectable until connect() consumes it, a fork of its subject)
+      pub published: std::collections::HashMap<usize, (Option<ConnectableObservable<$bx, $subject>>, $subject)>,
+      pub multis: std::collections::HashMap<usize, $multi>,
     }
 
     impl $name {
@@ -164,7 +170,34 @@ macro_rules! runner {
           behaviors: (0..cfg.nbeh).map(|_| BehaviorSubject::new(Val::I(9))).collect(),
           hotc: (0..cfg.nhotc).map(|_| Default::default()).collect(),
         };
-        $name { env, handles: vec![], gcount: Arc::new(Mutex::new(0)), dead: false }
+        $name {
+          env,
+          handles: vec![],
+          gcount: Arc::new(Mutex::new(0)),
+          dead: false,
+          built: Default::default(),
+          published: Default::default(),
+          multis: Default::default(),
+        }
+      }
+
+      fn built(&mut self, root: usize) -> $bx {
+        if !self.built.contains_key(&root) {
+          let b = $build(&self.env, root);
+          self.built.insert(root, b);
+        }
+        self.built[&root].clone()
+      }
+
+      fn publish_of(&mut self, root: usize) -> &mut (Option<ConnectableObservable<$bx, $subject>>, $subject) {
+        if !self.published.contains_key(&root) {
+          let s1 = self.env.prog[root - 1].s1;
+          let src = self.built(s1);
+          let c = src.publish::<$subject>();
+          let fork = c.fork();
+          self.published.insert(root, (Some(c), fork));
+        }
+        self.published.get_mut(&root).unwrap()
       }
 
       fn run(&mut self, s: &Stim) -> Val {
@@ -185,9 +218,35 @@ macro_rules! runner {
                 .group_by::<_, _, $subject>(move |v: &Val| keyf(a, v))
                 .actual_subscribe(gp);
               <$boxsub>::new(u)
+            } else if self.env.prog[root - 1].op == "publish" {
+              let p: Probe<$react> = Probe::new(&sh, None);
+              let subj = self.publish_of(root).1.clone();
+              <$boxsub>::new(subj.actual_subscribe(p))
             } else {
-              let p = Probe::new(&sh, None);
-              $build(&self.env, root).actual_subscribe(p)
+              let pipeline = self.built(root);
+              let react: Option<$react> = match s.b {
+                2 => {
+                  // on the first item subscribe the same pipeline again (nested subscription)
+                  let (pl, sh2, mut done) = (pipeline.clone(), sh.clone(), false);
+                  Some(Box::new(move |_v: &Val| {
+                    if !done {
+                      done = true;
+                      let p: Probe<$react> = Probe::new(&sh2, None);
+                      let _ = pl.clone().actual_subscribe(p);
+                    }
+                  }))
+                }
+                3 => {
+                  let (pl, sh2) = (pipeline.clone(), sh.clone());
+                  Some(Box::new(move |_v: &Val| {
+                    let p: Probe<$react> = Probe::new(&sh2, None);
+                    let _ = pl.clone().actual_subscribe(p);
+                  }))
+                }
+                _ => None,
+              };
+              let p: Probe<$react> = Probe::new(&sh, react);
+              pipeline.actual_subscribe(p)
             };
             self.handles.push(Some(h));
             Val::U
@@ -228,6 +287,34 @@ macro_rules! runner {
           }
           "sunsub" => {
             self.env.subjects[(s.a - 1) as usize].clone().unsubscribe();
+            Val::U
+          }
+          "build" => {
+            let _ = self.built(s.a as usize);
+            Val::U
+          }
+          "connect" => {
+            let c = self.publish_of(s.a as usize).0.take().expect("connect twice");
+            self.handles.push(Some(c.connect()));
+            Val::U
+          }
+          "bterm" => {
+            let b = self.env.behaviors[(s.a - 1) as usize].clone();
+            match s.t.as_str() {
+              "E" => b.error(s.v.clone()),
+              _ => Observer::<Val, Val>::complete(b),
+            }
+            Val::U
+          }
+          "mnew" => {
+            let m = <$multi>::default();
+            self.multis.insert(self.handles.len(), m.clone());
+            self.handles.push(Some(<$boxsub>::new(m)));
+            Val::U
+          }
+          "mappend" => {
+            let child = self.handles[(s.b - 1) as usize].take().expect("mappend: child handle consumed");
+            self.multis.get_mut(&((s.a - 1) as usize)).expect("mappend: not a composite").append(child);
             Val::U
           }
           "bnext" => {
@@ -283,8 +370,8 @@ macro_rules! stash_snapshot {
   };
 }
 
-runner!(RunnerL, EnvL, build_l, local, LSubject, BoxSubscription<'static>, Rc, GroupProbeL);
-runner!(RunnerT, EnvT, build_t, threads, TSubject, BoxSubscriptionThreads, Arc, GroupProbeT);
+runner!(RunnerL, EnvL, build_l, local, LSubject, BoxSubscription<'static>, Rc, GroupProbeL, LBox, ReactL, MultiSubscription<'static>);
+runner!(RunnerT, EnvT, build_t, threads, TSubject, BoxSubscriptionThreads, Arc, GroupProbeT, TBox, ReactT, MultiSubscriptionThreads);
 
 /// Run one behaviour; a behaviour ends at its first fault.
 pub fn run_behaviour(form: &str, prog: Vec<Ast>, cfg: &Cfg, stims: &[Stim]) -> Vec<StepObs> {
